@@ -2,6 +2,7 @@ package simcheck
 
 import (
 	"fmt"
+	"strings"
 
 	"github.com/goatcms/goatcore/app"
 	"github.com/goatcms/goatcore/app/scope"
@@ -189,6 +190,14 @@ func c12Run(inI interface{}, env *Env) *Failure {
 			post = failf("C12/error-lost", "err-nil", "errors were appended / scope was killed but Err() is nil")
 			return
 		}
+		// every appended error is reported by Err() as well (whenever Err was asked before)
+		reports := func(err error, e error) bool { return err != nil && strings.Contains(err.Error(), e.Error()) }
+		for _, e := range appended {
+			if !reports(target.Err(), e) {
+				post = failf("C12/error-lost", "err-incomplete", "appended error %v is in Errors() but not reported by Err() = %q", e, target.Err())
+				return
+			}
+		}
 		if !failed && target.Err() != nil {
 			post = failf("C12/spurious-error", "", "nothing failed but Err() = %v", target.Err())
 			return
@@ -214,6 +223,14 @@ func c12Run(inI interface{}, env *Env) *Failure {
 		if pfailed && (werr == nil || cerr == nil) {
 			post = failf("C12/close-reports", "parent", "parent Wait()=%v Close()=%v although errors were appended", werr, cerr)
 			return
+		}
+		if pfailed {
+			for _, e := range appended {
+				if !reports(werr, e) || !reports(cerr, e) {
+					post = failf("C12/close-reports", "incomplete", "appended error %v is not reported by the parent's Wait() = %q / Close() = %q", e, werr, cerr)
+					return
+				}
+			}
 		}
 		if !pfailed && (werr != nil || cerr != nil) {
 			post = failf("C12/spurious-error", "parent", "nothing failed in the parent but Wait()=%v Close()=%v", werr, cerr)
